@@ -49,14 +49,14 @@ def run(ctx):
     # the same workflows under several configurations
     extra = []
     groups = []
-    for _ in range(ctx.budget(4, 30)):
+    for _ in range(ctx.budget(3, 30)):
         nodes = fakes.gen_nodes(rng)
         nj = sum(fakes.njobs(n) for n in nodes)
         grp = []
         grp.append(dict(nodes=nodes, k=None, fail=[], oracle=[], mode="sync"))
         for _ in range(2):
             grp.append(dict(nodes=nodes, k=fakes.gen_k(rng, nj), fail=[], oracle=fakes.gen_oracle(rng, nj), mode="async"))
-        for n_procs in rng.sample([1, 2, 4, 8], 2 if ctx.tier == "quick" else 4):
+        for n_procs in rng.sample([1, 2, 4, 8], 1 if ctx.tier == "quick" else 4):
             grp.append(dict(nodes=nodes, k=rng.choice([None, 1, 2, nj]), fail=[], oracle=[], mode="cf", n_procs=n_procs))
         groups.append((len(extra), len(grp)))
         extra += grp
@@ -67,7 +67,7 @@ def run(ctx):
         if c.get("mode") == "state":            # corpus cases get the sequential run as their reference
             sgroups.append((len(extra), 2))
             extra += [dict(nodes=c["nodes"], k=None, fail=[], oracle=[], mode="state_sync"), dict(c)]
-    for _ in range(ctx.budget(3, 30)):
+    for _ in range(ctx.budget(2, 30)):
         nodes = fakes.gen_state_nodes(rng)
         nj = sum(fakes.njobs(n) for n in nodes)
         grp = [dict(nodes=nodes, k=None, fail=[], oracle=[], mode="state_sync")]
@@ -121,4 +121,9 @@ def replay(ctx, payload):
         for c, o in zip(cs, fakes.run_batch(cs, nproc=2)):
             print({k: c.get(k) for k in ("mode", "k", "n_procs")}, "->", o.get("outputs") if o.get("outcome") == "ok" else o.get("msg"))
         return
+    if case.get("mode") in ("state", "state_cf"):
+        ref, o = fakes.run_batch([dict(case, mode="state_sync", oracle=[]), case], nproc=2)
+        print("sequential worker outputs:", ref.get("outputs"))
+        print("this configuration       :", o.get("outputs"))
+        print("equal:", ref.get("outputs") == o.get("outputs"))
     fakes.replay_case(ctx, payload, SPEC)
